@@ -369,7 +369,7 @@ def c10(run, replay=None):
                     given = set() if not r["ref"] else {D.key_of(unhx(t[1]).decode()) for t in r["ref"]["toks"] if t[0] == 'o'}
                     for x in D.opts_of(r["with_opts"]):
                         k = D.key_of(D.cname(x))
-                        if r["ref"] and k in opts and k not in given and r["verdict"] == "ok":
+                        if r["ref"] and k in opts and k not in given and (r["verdict"] == "ok" or (r["verdict"] == "C07" and not r["known"] and not dup_option(r["ref"]["toks"]))):
                             want = x[3] if x[2] else None
                             got = opts[k]
                             if x[2] and got != want:
